@@ -47,6 +47,27 @@ def permute_definitions(sdl, rnd):
     return print_ast(doc)
 
 
+# several members / locations / values / fields removed in ONE edit: the reported list must not depend on the hash seed
+MULTI_OLD = ("type Query { u: U e: E a: Int b: Int c: Int d: Int } type A { x: Int } type B { x: Int } type C { x: Int } type D { x: Int } type F { x: Int } "
+             "union U = A | B | C | D | F enum E { V1 V2 V3 V4 V5 } directive @d on FIELD | QUERY | MUTATION | SUBSCRIPTION | FRAGMENT_SPREAD | INLINE_FRAGMENT")
+MULTI_NEW = ("type Query { u: U e: E a: Int } type A { x: Int } type B { x: Int } type C { x: Int } type D { x: Int } type F { x: Int } "
+             "union U = A enum E { V1 } directive @d on FIELD")
+_Q = "type Query { a: Int } "
+EXTRA_PAIRS = [
+    # a default removed from a NON-NULL input: the input becomes required
+    ("nonnull-argument-default-removed", "type Query { f(a: Int! = 1): Int }", "type Query { f(a: Int!): Int }", "a", ["{ f }", "query ($v: Int) { f(a: $v) }"]),
+    ("nonnull-input-field-default-removed", "type Query { f(i: I): Int } input I { a: Int! = 1 }", "type Query { f(i: I): Int } input I { a: Int! }", "a", ["{ f(i: {}) }"]),
+    ("nonnull-directive-argument-default-removed", _Q + "directive @d(a: Int! = 1) on FIELD", _Q + "directive @d(a: Int!) on FIELD", "a", ["{ a @d }"]),
+    # root operation types
+    ("query-root-repointed", "schema { query: Q } type Q { a: Int } type M { b: Int }", "schema { query: M } type Q { a: Int } type M { b: Int }", "query", ["{ a }"]),
+    ("mutation-root-removed", "schema { query: Q mutation: M } type Q { a: Int } type M { b: Int }", "schema { query: Q } type Q { a: Int } type M { b: Int }", "mutation",
+     ["mutation { b }"]),
+    ("mutation-root-repointed", "schema { query: Q mutation: M } type Q { a: Int } type M { b: Int } type S { c: Int }",
+     "schema { query: Q mutation: S } type Q { a: Int } type M { b: Int } type S { c: Int }", "mutation", ["mutation { b }"]),
+    ("subscription-root-added", "schema { query: Q } type Q { a: Int } type S { c: Int }", "schema { query: Q subscription: S } type Q { a: Int } type S { c: Int }", "subscription", []),
+]
+
+
 def check(tier, seed):
     from py_gql import build_schema
     from py_gql.lang import parse
@@ -119,11 +140,42 @@ def check(tier, seed):
             if sorted(ch) != sorted(ch2):
                 run.violation("diff_schema:definition-order-independent", "edit %s: the set of changes depends on definition order" % label,
                               dict(w, a=sorted(ch)[:4], b=sorted(ch2)[:4]), True)
+    # --- B2. pairs of small schemas (old, new, element a change must name, operations valid against old) ---------------------
+    for label, a, b, element, pair_ops in EXTRA_PAIRS:
+        n += 1
+        nontrivial += 1
+        w = {"edit": label, "direction": "forward", "element": element}
+        try:
+            ch = _changes(a, b)
+        except Exception as e:
+            run.violation("diff_schema:never-raises", "diff_schema raised %r" % (e,), dict(w, exc=type(e).__name__), True)
+            continue
+        if not any(element in msg for _c, msg, _s in ch):
+            run.violation("diff_schema:every-edit-reported", "edit %s of %r: no reported change names it; changes: %r" % (label, element, [m for _c, m, _s in ch][:4]),
+                          dict(w, changes=ch[:6]), True)
+        if not any(s_ >= int(SchemaChangeSeverity.BREAKING) for _c, _m, s_ in ch):
+            old_s, new_s = build_schema(a), build_schema(b)
+            for o in pair_ops:
+                doc = parse(o)
+                try:
+                    if validate_ast(old_s, doc).errors:
+                        raise MachineryDefect("pair operation %r is not valid against the old schema of %s" % (o, label))
+                    errs = validate_ast(new_s, doc).errors
+                except MachineryDefect:
+                    raise
+                except Exception:
+                    continue
+                n += 1
+                if errs:
+                    run.violation("diff_schema:no-breaking-implies-operations-stay-valid", "edit %s: no BREAKING change reported, but %r is valid before and invalid after: %s"
+                                  % (label, o, errs[0]), dict(w, operation=o, changes=ch[:6], error=str(errs[0])), True)
+                    break
     # --- C. hash-seed independence (subprocesses) ---------------------------------------------------------
     outs = []
     code = ("import sys, json; sys.path.insert(0, %r); sys.path.insert(0, %r); from vf.props import c20; from vf import schemas as S;"
             "print(json.dumps([c20._changes(S.BASE_SDL, S.apply_edit(S.apply_edit(S.BASE_SDL, *S.EDITS[3][1:3]), *S.EDITS[22][1:3])),"
-            " c20._changes(S.BASE_SDL, S.apply_edit(S.BASE_SDL, *S.EDITS[0][1:3]))]))") % (
+            " c20._changes(S.BASE_SDL, S.apply_edit(S.BASE_SDL, *S.EDITS[0][1:3])),"
+            " c20._changes(c20.MULTI_OLD, c20.MULTI_NEW), c20._changes(c20.MULTI_NEW, c20.MULTI_OLD)]))") % (
         os.path.dirname(os.path.dirname(os.path.dirname(os.path.abspath(__file__)))), os.path.join(os.environ.get("VF_REPO") or "/repo", "src"))
     for hs in ("0", "1", "4242"):
         env = dict(os.environ, PYTHONHASHSEED=hs)
